@@ -340,6 +340,14 @@ def _absence_signal(model: Model, rep: Report) -> None:
                 cls = model.resolve_expr(f.module, n.exc.func if isinstance(n.exc, ast.Call) else n.exc, f.cls) or "?"
                 ok = model.is_subclass(cls, "KeyError") if (cls in model.classes or cls == "KeyError") else False
                 r11.check(ok, site(f, n), f.qualname, " ".join(unparse(n).split())[:100], why=f"raises {cls.split('.')[-1]}, which is not a KeyError: getobj stops at this section instead of consulting the older ones, so a free entry in a newer cross-reference stream hides the object's definition in an earlier revision")
+    r13 = rep.rule("C02-R13", "GUARD", "cross-reference stream: the default range (0, Size) applies only when /Index is absent - an explicit /Index, also an empty one (an update that defines nothing), is taken as written", 1)
+    xl = model.func(D + "PDFXRefStream.load")
+    idx = [a for a in walk_no_nested(xl.node) if isinstance(a, (ast.Assign, ast.AnnAssign)) and "'Index'" in unparse(a.value if a.value is not None else ast.Constant(value=0))]
+    if not idx:
+        raise AnchorMissing("PDFXRefStream.load: /Index lookup not found")
+    v13 = idx[0].value
+    two_arg_get = isinstance(v13, ast.Call) and isinstance(v13.func, ast.Attribute) and v13.func.attr == "get" and len(v13.args) == 2 and isinstance(v13.args[0], ast.Constant) and v13.args[0].value == "Index"
+    r13.check(bool(two_arg_get), site(xl, idx[0]), xl.qualname, "index = stream.get('Index', (0, size))", why=f"`{unparse(v13)[:80]}`: a default chosen by truth value (or by a later test) also replaces an empty /Index, so a revision that defines no objects is read as covering 0..Size-1 and shadows every older definition")
     r12 = rep.rule("C02-R12", "EXC", "classic table: a line that is neither a subsection header nor a three-field entry invalidates the table (PDFNoValidXRef, which engages the body scan) - it is not skipped", 2)
     ld = model.func(D + "PDFXRef.load")
     tests = [n for n in walk_no_nested(ld.node) if isinstance(n, ast.If) and isinstance(n.test, ast.Compare) and unparse(n.test.left).startswith("len(") and isinstance(n.test.ops[0], ast.NotEq)]
